@@ -278,7 +278,27 @@ def check_color_pairs(which, xx, yy):
 # generators
 # --------------------------------------------------------------------------------------------
 
-NUM_SHAPES = ['0', '1', '10', '100', '.5', '1.', '1.25', '0.5', '12.75', '-1', '-10', '-.5', '-1.25', '-2.', '0.0', '.0']
+NUM_SHAPES = ['0', '1', '10', '100', '.5', '1.', '1.25', '0.5', '12.75', '-1', '-10', '-.5', '-1.25', '-2.', '0.0', '.0',
+              '1.0', '2.00', '-3.0', '10.0', '1.50']       # float literals whose fraction is all zeros / has trailing zeros
+
+
+def systematic_shapes():
+    """{sign} x {integer part: none, 0, 1, 10} x {fraction: none, `.`, .0, .00, .5, .50, .25}: every way of writing a number
+    as an integer or a float literal (a float is recognised by its `.`, not by its value); negative zeros left out"""
+    out = []
+    for sign in ('', '-'):
+        for ip in ('', '0', '1', '10'):
+            for fp in (None, '.', '.0', '.00', '.5', '.50', '.25'):
+                if ip == '' and fp in (None, '.'):
+                    continue
+                text = sign + ip + (fp or '')
+                if sign and float(text) == 0:
+                    continue
+                out.append(text)
+    return out
+
+
+SHAPES_SYS = systematic_shapes()
 UNITS = ['', 'p', 'e', 'x', 'r', 'px', 'em', '%', 'vh', 'rem', 'ex', 'pt', 's', 'ms', 'deg', 'fr', 'vmin', 'Q']
 GRID = ['00', '01', '09', '0a', '0f', '10', '11', '1f', '7f', '80', '99', 'a0', 'aa', 'bc', 'e7', 'f0', 'fe', 'ff']
 
@@ -287,11 +307,11 @@ COLOR_SAMPLE = ['#0', '#f', '#a', '#C', '#fc', '#0b', '#b0', '#01', '#E7', '#fc0
 COLOR_ALPHA_SAMPLE = ['#0.5', '#f.5', '#f.25', '#fc.75', '#0b.5', '#fc0.5', '#0a1.05', '#e7bc0b.5', '#0a0b0c.25', '#0.0', '#f.0',
                       '#000000.0', '#ffcc00.50']
 
-ATOMS_FULL = [n + u for n in NUM_SHAPES for u in UNITS] + COLOR_SAMPLE + COLOR_ALPHA_SAMPLE
+ATOMS_FULL = [n + u for n in NUM_SHAPES for u in UNITS] + [n for n in SHAPES_SYS if n not in NUM_SHAPES] + COLOR_SAMPLE + COLOR_ALPHA_SAMPLE
 
-ATOMS_SMALL_Q = ['0', '10', '.5', '1.', '1.25', '-10', '-.5', '.0', '10p', '1.5e', '-2x', '3r', '10px', '-1.25rem', '50%', '0p',
+ATOMS_SMALL_Q = ['0', '10', '.5', '1.', '1.25', '1.0', '-3.0', '-10', '-.5', '.0', '10p', '1.5e', '-2x', '3r', '10px', '-1.25rem', '50%', '0p',
                  '#f', '#0b', '#fc0', '#e7bc0b', '#f.5', '#0a0b0c.25', '#0.0']
-ATOMS_SMALL_T = ATOMS_SMALL_Q + ['1', '-1', '-1.', '0.0', '12.75', '.5p', '1.e', '10vh', '2s', '-10%', '1.5em', '100fr',
+ATOMS_SMALL_T = ATOMS_SMALL_Q + ['1', '-1', '-1.', '0.0', '2.00', '12.75', '.5p', '1.e', '10vh', '2s', '-10%', '1.5em', '100fr',
                                  '#0', '#C', '#fc', '#0a1', '#FC0', '#ffcc00', '#000001', '#fc0.5', '#0b.75', '#f.0']
 
 OPTION_VARIANTS = [
@@ -347,7 +367,7 @@ def gen_conventions(atoms, keys, variants, quick):
                             yield (syn, o, [[key, [a], imp]])
     # every key of the table (all unitless / unit-taking properties) with every unit-less number shape and alias
     for key in PROPS:
-        for a in [n + u for n in NUM_SHAPES for u in ('', 'p', 'e', 'px')] + ['#fc0', '#0b', '#0a0b0c.25']:
+        for a in [n + u for n in SHAPES_SYS for u in ('', 'p', 'e', 'px')] + ['#fc0', '#0b', '#0a0b0c.25']:
             for syn in ('css', 'stylus'):
                 for o in ({}, {'stylesheet.intUnit': 'pt', 'stylesheet.floatUnit': 'vh'}):
                     yield (syn, o, [[key, [a], False]])
@@ -465,14 +485,15 @@ def run(tier, seed):
 
     keys = ['m', 'p', 'c', 'lh', 'z', 'op'] if quick else list(PROPS)
     variants = OPTION_VARIANTS
-    c = Clause('conventions-options', 'B', 'every atom of {%d number shapes} x {%d units incl. none, aliases p e x r} + %d colour forms'
+    c = Clause('conventions-options', 'B', 'every atom of {%d number shapes} x {%d units incl. none, aliases p e x r} + the systematic number spellings without unit + %d colour forms'
                % (len(NUM_SHAPES), len(UNITS), len(COLOR_SAMPLE) + len(COLOR_ALPHA_SAMPLE)),
                ('single values: (a) every atom x keys m, lh x %d option variants, css; (b) every atom x keys %r x syntaxes %r x {!, no !}, '
                 'default options; (c) the %d atoms of value-sequences x those keys x syntaxes x option variants x {!, no !}'
                 % (len(variants), keys, SYNTAXES, len(ATOMS_SMALL_Q)) if quick else
                 'single values x keys %r x syntaxes %r x %d option variants x {!, no !}' % (keys, SYNTAXES, len(variants))) +
-               '; plus every key of the table x every number shape with unit none/p/e/px x css, stylus x 2 unit settings; plus every atom '
-               'before/after 5 fixed neighbours on m / lh',
+               '; plus every key of the table x the %d systematic number spellings {sign} x {int part none/0/1/10} x {fraction '
+               'none/./.0/.00/.5/.50/.25} with unit none/p/e/px x css, stylus x 2 unit settings; plus every atom before/after 5 fixed '
+               'neighbours on m / lh' % len(SHAPES_SYS),
                'a case is (syntax, options, key, value, important); output must equal spec_css_line under that syntax convention and options',
                exhaustive=True)
     run_parallel(c, 'bounded.c05', 'check_line', gen_conventions(ATOMS_FULL, keys, variants, quick), chunk=3000)
